@@ -70,3 +70,29 @@ Definition model_pages_c04 (d : doc) : option (list Z) :=
     end
   | _ => None
   end.
+
+(* ---- C02 ---- *)
+Definition kept_display (f : frame) (b : body) : list (list str) :=
+  let rem := removed_indices f b in
+  map (fun row => map display (drop_idx rem row)) (f_rows f).
+
+Definition sections_of (d : doc) : list (frame * body) :=
+  match d_content d with
+  | CSingle f b => [(f, b)]
+  | CMulti l => l
+  | CFigure _ => []
+  end.
+
+Definition all_data_rows (pd : pdoc) : list (nat * row) := flat_map data_rows (observed_pages pd).
+
+Definition str_list_eqb := list_eqb str_eqb.
+
+(* clause ids: 1 tags are not each section's 0..n-1 in order; 2 some cell text differs; 0 ok *)
+Definition check_c02 (d : doc) (pd : pdoc) : nat :=
+  let secs := sections_of d in
+  let obs := all_data_rows pd in
+  let want_tags := flat_map (fun fb => seq 0 (length (f_rows (fst fb)))) secs in
+  let want_text := flat_map (fun fb => kept_display (fst fb) (snd fb)) secs in
+  if negb (nat_list_eqb (map fst obs) want_tags) then 1
+  else if negb (list_eqb str_list_eqb (map (fun tr => map cell_text (rw_cells (snd tr))) obs) want_text) then 2
+  else 0.
